@@ -2105,6 +2105,22 @@ where
                     // let span = inp.span_since(&before);
                     // We don't add an alt here because we assume the inner parser will. Is this safe to assume?
                     // inp.add_alt([ExpectedMoreElements(Some(C::LEN - idx))], None, span);
+                    // It is not: an iterator that stopped at its own upper bound (`at_most`) rather than at a failed item
+                    // leaves nothing pending here. Like any failed parser, this one must leave an error behind (for the
+                    // final report, and for `map_err` / `recover_with` around it), so record one if none is pending at or
+                    // beyond this position.
+                    let here = I::cursor_location(&inp.cursor().inner);
+                    let nothing_pending = match &inp.errors.alt {
+                        Some(alt) => I::cursor_location(&alt.pos) < here,
+                        None => true,
+                    };
+                    if nothing_pending {
+                        let before = inp.save();
+                        let found = inp.next_maybe_inner().map(Into::into);
+                        let span = inp.span_since(before.cursor());
+                        inp.rewind(before);
+                        inp.add_alt([DefaultExpected::SomethingElse], found, span);
+                    }
                     // SAFETY: We're guaranteed to have initialized up to `idx` values
                     M::map(output, |mut output| unsafe {
                         C::drop_before(&mut output, idx)
